@@ -114,6 +114,47 @@ impl Ctx {
     }
 }
 
+impl Ctx {
+    /// every signing interface with a signer that differs from the key or component signed:
+    /// the issuer fields name the issuing key, never the signee
+    fn issuing_sites(&mut self, a: &SignedSecretKey, b: &SignedSecretKey, cls: &str) {
+        use pgp::packet::{SignatureType, UserAttribute, UserId, Signature};
+        use pgp::types::{KeyDetails as KD, PacketHeaderVersion};
+        let pw = Password::empty();
+        fn names(sig: &Signature, fp: &pgp::types::Fingerprint, id: &pgp::types::KeyId, v4: bool) -> bool {
+            let fps = sig.issuer_fingerprint();
+            let mut ok = !fps.is_empty() && fps.iter().all(|f| *f == fp);
+            let ids = sig.issuer_key_id();
+            if v4 { ok &= !ids.is_empty(); }
+            ok &= ids.iter().all(|i| *i == id);
+            ok
+        }
+        let afp = a.primary_key.fingerprint(); let aid = a.primary_key.legacy_key_id(); let av4 = a.version() == KeyVersion::V4;
+        let bpub = b.primary_key.public_key();
+        let mut results: Vec<(String, Option<bool>)> = Vec::new();
+        let mut push = |n: &str, r: Result<Option<bool>, String>| results.push((n.to_string(), r.ok().flatten()));
+        push("userid.sign_third_party", guarded(|| { let u = UserId::from_str(PacketHeaderVersion::New, "third <t@example.org>").ok()?; let su = u.sign_third_party(Rng::new(1), &a.primary_key, &pw, &bpub, SignatureType::CertGeneric).ok()?; Some(su.signatures.iter().all(|s| names(s, &afp, &aid, av4)) && !su.signatures.is_empty()) }));
+        push("userid.sign(self)", guarded(|| { let u = UserId::from_str(PacketHeaderVersion::New, "self <s@example.org>").ok()?; let su = u.sign(Rng::new(1), &a.primary_key, &a.primary_key.public_key(), &pw).ok()?; Some(su.signatures.iter().all(|s| names(s, &afp, &aid, av4)) && !su.signatures.is_empty()) }));
+        push("userattribute.sign_third_party", guarded(|| { let img: Vec<u8> = vec![0xFF, 0xD8, 0xFF, 0xE0, 0, 16, b'J', b'F', b'I', b'F', 0, 1, 1, 0, 0, 1, 0, 1, 0, 0, 0xFF, 0xD9]; let u = UserAttribute::new_image(img.into()).ok()?; let su = u.sign_third_party(Rng::new(1), &a.primary_key, &pw, &bpub, SignatureType::CertGeneric).ok()?; Some(su.signatures.iter().all(|s| names(s, &afp, &aid, av4)) && !su.signatures.is_empty()) }));
+        if let Some(sub) = b.secret_subkeys.first() {
+            let subpub = sub.key.public_key();
+            push("publicsubkey.sign(binding by another primary)", guarded(|| { let s = subpub.sign(Rng::new(1), &a.primary_key, &a.primary_key.public_key(), &pw, Default::default(), None).ok()?; Some(names(&s, &afp, &aid, av4)) }));
+            push("secretsubkey.sign(binding by another primary)", guarded(|| { let s = sub.key.sign(Rng::new(1), &a.primary_key, &a.primary_key.public_key(), &pw, Default::default(), None).ok()?; Some(names(&s, &afp, &aid, av4)) }));
+            let sfp = sub.key.fingerprint(); let sid = sub.key.legacy_key_id(); let sv4 = sub.key.version() == KeyVersion::V4;
+            if sub.key.algorithm().can_sign() {
+                push("secretsubkey.sign_primary_key_binding", guarded(|| { let s = sub.key.sign_primary_key_binding(Rng::new(1), &a.primary_key.public_key(), &pw).ok()?; Some(names(&s, &sfp, &sid, sv4)) }));
+                push("detached by subkey", guarded(|| { use pgp::types::SigningKey; let d = pgp::composed::DetachedSignature::sign_binary_data(Rng::new(1), &sub.key, &pw, sub.key.hash_alg(), &b"x"[..]).ok()?; Some(names(&d.signature, &sfp, &sid, sv4)) }));
+            }
+        }
+        push("detached by primary", guarded(|| { use pgp::types::SigningKey; let d = pgp::composed::DetachedSignature::sign_text_data(Rng::new(1), &a.primary_key, &pw, a.primary_key.hash_alg(), &b"x"[..]).ok()?; Some(names(&d.signature, &afp, &aid, av4)) }));
+        push("cleartext", guarded(|| { let c = pgp::composed::CleartextSignedMessage::sign(Rng::new(1), "x\n", &a.primary_key, &pw).ok()?; Some(c.signatures().iter().all(|s| names(s, &afp, &aid, av4)) && !c.signatures().is_empty()) }));
+        for (n, r) in results {
+            let imp = match r { Some(true) => "issuer=signer", Some(false) => "issuer!=signer", None => "n/a" };
+            self.out.case("", &[], &["issuing".into(), n.clone(), hx(afp.as_bytes()), hx(b.fingerprint().as_bytes())], imp, Some(r != Some(false)), &format!("{cls}-{}", if r.is_some() { n.as_str() } else { "unavailable" }));
+        }
+    }
+}
+
 /// raw (tag, body) of every fixed-length packet in a binary blob
 fn split_packets(mut d: &[u8]) -> Vec<(u8, Vec<u8>)> {
     let mut out = Vec::new();
@@ -163,6 +204,15 @@ fn main() {
         let sk = vh::keys::gen_key_with_subkey(v, seed);
         cx.cert(&SignedPublicKey::from(sk.clone()), Some(&sk), "generated-subkey");
         cx.embedded(&sk, "generated-subkey");
+    }
+    // signer != signee at every signing interface
+    {
+        let a4 = vh::keys::gen_key_with_subkey(KeyVersion::V4, 11); let b4 = vh::keys::gen_key_with_subkey(KeyVersion::V4, 12);
+        let a6 = vh::keys::gen_key_with_subkey(KeyVersion::V6, 13); let b6 = vh::keys::gen_key_with_subkey(KeyVersion::V6, 14);
+        cx.issuing_sites(&a4, &b4, "issuing-v4-v4"); cx.issuing_sites(&a6, &b6, "issuing-v6-v6");
+        cx.issuing_sites(&a4, &b6, "issuing-v4-v6"); cx.issuing_sites(&a6, &b4, "issuing-v6-v4");
+        let e = gen_key(KeyVersion::V4, KeyType::ECDSA(ECCCurve::P256), 15);
+        cx.issuing_sites(&e, &b4, "issuing-ecdsa-v4");
     }
     // every key fixture of the repository, on the wire octets
     let mut files = Vec::new();
